@@ -26,5 +26,29 @@ int main(void) {
     run("garbage lines then a status line (1 chunk)", req, r1b, 1);
     const char *r2[] = { "HTTP/1.1 200 OK\r\nTransfer-Encoding: chunked\r\n\r\n1\r\na\r\n0\r\nT: v\r\n\r\nmore bytes that are not a status line\r\n" };
     run("chunked + trailer, then junk", req, r2, 1);
+    /* body_data after COMPLETE (same root as F4): refused CONNECT + pipelined request, caller follows the documented DATA_OTHER hand-over;
+     * the bytes after the 405 are not a status line */
+    {
+        trace[0] = 0;
+        htp_cfg_t *cfg = htp_config_create();
+        htp_config_register_response_start(cfg, cb_start); htp_config_register_response_line(cfg, cb_line); htp_config_register_response_headers(cfg, cb_headers);
+        htp_config_register_response_trailer(cfg, cb_trailer); htp_config_register_response_complete(cfg, cb_complete); htp_config_register_response_body_data(cfg, cb_body);
+        htp_config_register_transaction_complete(cfg, cb_txc);
+        htp_connp_t *c = htp_connp_create(cfg); htp_connp_open(c, "1.1.1.1", 1, "2.2.2.2", 80, NULL);
+        const char *rq = "CONNECT h:443 HTTP/1.1\r\nHost: h\r\n\r\nGET /next HTTP/1.1\r\nHost: h\r\n\r\n";
+        const char *rs[2] = { "HTTP/1.1 405 No\r\nContent-Length: 0\r\n\r\n", "this is not a status line\r\n" };
+        size_t ro = 0, rl = strlen(rq);
+        for (int i = 0; i < 2; i++) {
+            if (ro < rl) { int rc = htp_connp_req_data(c, NULL, rq + ro, rl - ro); size_t k = (rc == HTP_STREAM_DATA_OTHER) ? htp_connp_req_data_consumed(c) : rl - ro; ro += k; }
+            size_t so = 0, sl = strlen(rs[i]); int guard = 0;
+            while (so < sl && guard++ < 5) {
+                int rc = htp_connp_res_data(c, NULL, rs[i] + so, sl - so); size_t k = (rc == HTP_STREAM_DATA_OTHER) ? htp_connp_res_data_consumed(c) : sl - so; so += k; strcat(trace, "| ");
+                if (ro < rl) { int rc2 = htp_connp_req_data(c, NULL, rq + ro, rl - ro); size_t k2 = (rc2 == HTP_STREAM_DATA_OTHER) ? htp_connp_req_data_consumed(c) : rl - ro; ro += k2; }
+            }
+        }
+        htp_connp_close(c, NULL);
+        printf("%-46s: %s\n", "405 to CONNECT, hand-over, then junk", trace);
+        htp_connp_destroy_all(c); htp_config_destroy(cfg);
+    }
     return 0;
 }
